@@ -178,9 +178,16 @@ def sh(cmd, cwd, timeout):
 def main():
     repo, vroot = sys.argv[1], sys.argv[2]
     flt = sys.argv[3] if len(sys.argv) > 3 else ""
+    done = set()
+    if len(sys.argv) > 4 and os.path.exists(sys.argv[4]):
+        for l in open(sys.argv[4]):
+            try:
+                done.add(json.loads(l)["name"])
+            except Exception:
+                pass
     env = "CARGO_NET_OFFLINE=true HCVERIF_OUT_DIR=%s/out " % vroot
     for m in M:
-        if flt and flt not in m["name"]:
+        if (flt and flt not in m["name"]) or m["name"] in done:
             continue
         path = os.path.join(repo, m["file"])
         orig = open(path).read()
@@ -197,8 +204,8 @@ def main():
         try:
             rc, out, dt = sh("cargo test --workspace --no-fail-fast --offline 2>&1 | grep -E '^test result|error(\\[|:)' | head -20", repo, 1800)
             failed = ("FAILED" in out) or ("error" in out and "test result" not in out) or ("failed" in out and " 0 failed" not in out.replace("; 0 failed", " 0 failed"))
-            passed = sum(int(x.split(" passed")[0].split()[-1]) for x in out.splitlines() if " passed" in x)
-            nfailed = sum(int(x.split(" failed")[0].split()[-1]) for x in out.splitlines() if " failed" in x)
+            passed = sum(int(x.split(" passed")[0].split()[-1]) for x in out.splitlines() if x.startswith("test result") and " passed" in x)
+            nfailed = sum(int(x.split(" failed")[0].split()[-1]) for x in out.splitlines() if x.startswith("test result") and " failed" in x)
             res["existing_tests"] = {"passed": passed, "failed": nfailed, "compiles": "test result" in out}
             if not res["existing_tests"]["compiles"] or nfailed > 0:
                 res["verdict"] = "not-a-valid-mutant (killed by the existing suite or does not compile)"
